@@ -35,4 +35,26 @@ def declaredSharingWhy : List (String × String) :=
 
 def declaredSharing : List String := declaredSharingWhy.map (·.1)
 
+/-- the names of `declaredOutside` as code points (literal, so that the kernel never evaluates string operations;
+`Lemmas/EffectsApi.lean` proves it is the spelling of `declaredOutside`) -/
+def declaredOutsideCodes : List (List Nat) :=
+  [[99, 114, 111, 115, 115, 95, 108, 105, 110, 107, 105, 110, 103, 95, 114, 97, 110, 100, 111, 109, 105, 122, 101, 114],
+   [103, 108, 121, 99, 97, 110, 95, 114, 97, 110, 100, 111, 109, 105, 122, 101, 114],
+   [115, 112, 101, 99, 116, 114, 117, 109, 95, 114, 97, 110, 100, 111, 109, 105, 122, 101, 114],
+   [116, 111, 112, 95, 100, 111, 119, 110, 95, 114, 97, 110, 100, 111, 109, 105, 122, 101, 114],
+   [114, 97, 110, 100, 111, 109, 95, 105, 110, 116, 101, 114, 118, 97, 108, 115],
+   [99, 111, 117, 110, 116, 95, 105, 110, 118, 97, 108, 105, 100, 95, 101, 110, 116, 114, 105, 101, 115],
+   [103, 101, 116, 95, 105, 115, 111, 116, 111, 112, 105, 99, 95, 97, 116, 111, 109, 105, 99, 95, 109, 97, 115, 115, 101, 115],
+   [109, 97, 112, 95, 97, 116, 111, 109, 105, 99, 95, 110, 117, 109, 98, 101, 114, 95, 116, 111, 95, 99, 111, 109, 112],
+   [109, 97, 112, 95, 97, 116, 111, 109, 105, 99, 95, 110, 117, 109, 98, 101, 114, 95, 116, 111, 95, 99, 111, 109, 112, 95, 110, 101, 117, 116, 114, 111, 110, 95, 111, 102, 102, 115, 101, 116],
+   [109, 97, 112, 95, 97, 116, 111, 109, 105, 99, 95, 110, 117, 109, 98, 101, 114, 95, 116, 111, 95, 115, 121, 109, 98, 111, 108],
+   [109, 97, 112, 95, 97, 116, 111, 109, 105, 99, 95, 115, 121, 109, 98, 111, 108, 95, 116, 111, 95, 97, 118, 101, 114, 97, 103, 101, 95, 109, 97, 115, 115],
+   [109, 97, 112, 95, 104, 105, 108, 108, 95, 111, 114, 100, 101, 114]]
+
+/-- the names of `declaredSharing` as code points (same remark) -/
+def declaredSharingCodes : List (List Nat) :=
+  [[80, 114, 111, 70, 111, 114, 109, 97, 65, 110, 110, 111, 116, 97, 116, 105, 111, 110, 46, 103, 101, 116, 95, 105, 110, 116, 101, 114, 110, 97, 108, 95, 109, 111, 100, 115, 95, 98, 121, 95, 105, 110, 100, 101, 120],
+   [99, 114, 101, 97, 116, 101, 95, 109, 117, 108, 116, 105, 95, 97, 110, 110, 111, 116, 97, 116, 105, 111, 110],
+   [109, 101, 114, 103, 101, 95, 100, 105, 99, 116, 115]]
+
 end Effects
